@@ -240,7 +240,7 @@ def run_kani(unit_name, repo='/repo', tier='quick', jobs=6, timeout=1500, only=N
                 out['trouble'].append('harness %s: status %s without attributable failed check' % (h['name'], r['status']))
                 continue
             for c in real:
-                tool_limit = re.search(r'unwinding assertion|recursion unwinding|not supported|unsupported|unwind', c['desc'])
+                tool_limit = re.search(r'unwinding assertion|recursion unwinding|not (currently )?supported|unsupported|unwind|foreign C function', c['desc'])
                 if tool_limit:
                     out['trouble'].append('harness %s: tool limit: %s' % (h['name'], c['desc']))
                     continue
